@@ -365,3 +365,124 @@ func c04Bombs(limit int) []struct{ Name, Src string } {
 		{"hash-chain", "all(a,{" + rep("#.")}, {"slice-chain", "a" + rep("[1:2]")}, {"multibyte", rep("é")}, {"invalid-utf8", rep("\xff")},
 	}
 }
+
+// ---- systematic enumerations (token-level edge cases, integer boundaries) ----
+
+// c04Contexts embeds a literal alone and in call / array / map-key / comparison / index positions
+func c04Contexts(lit string, all bool) []string {
+	out := []string{lit}
+	if all {
+		out = append(out, "foo("+lit+")", "["+lit+"]", "{"+lit+": 1}", "S == "+lit, "M["+lit+"]", "{a: "+lit+"}.a")
+	}
+	return out
+}
+
+// c04EscapeEnum: every escape introducer x 0..9 following digits (octal / hex / decimal / non-digit) x both quote
+// characters x {closed right after the escape, one more character before the quote, unterminated}, alone and embedded
+func c04EscapeEnum(thorough bool) []string {
+	intro := []string{"a", "b", "f", "n", "r", "t", "v", "\\", "'", "\"", "`", "?", "x", "X", "u", "U", "0", "1", "2", "3", "4", "5", "6", "7",
+		"8", "9", "z", "q", "e", "N", " ", "\n", "é", ""}
+	digitSets := []string{"0", "7", "f", "9", "F", "g"}
+	var out []string
+	seen := map[string]bool{}
+	add := func(s string) {
+		if !seen[s] {
+			seen[s] = true
+			out = append(out, s)
+		}
+	}
+	for _, c := range intro {
+		for n := 0; n <= 9; n++ {
+			for di, d := range digitSets {
+				if n == 0 && di > 0 {
+					continue
+				}
+				digits := strings.Repeat(d, n)
+				if n > 1 && di == 2 {
+					digits = strings.Repeat("0", n-1) + "g" // the last digit is not a digit
+				}
+				for pi, prefix := range []string{"", "abc"} {
+					for _, q := range []string{`"`, `'`} {
+						content := prefix + `\` + c + digits
+						for ti, lit := range []string{q + content + q, q + content + "z" + q, q + content} {
+							embed := pi == 0 && di < 2 && (thorough || ti != 1)
+							for _, s := range c04Contexts(lit, embed) {
+								add(s)
+							}
+						}
+					}
+				}
+			}
+		}
+	}
+	return out
+}
+
+// c04NumberEnum: number-token stems that stop in the middle of a prefix, exponent, fraction or digit separator
+func c04NumberEnum() []string {
+	stems := []string{"0x", "0X", "0b", "0B", "0o", "0O", "1e", "1E", "1e+", "1e-", "1.", "1.e", "1.e1", ".e1", ".1e", ".1e+", "1_", "1__2", "_1", "0_", "0x_", "0x_1", "0xg",
+		"1a", "1x", "08", "09", "0b2", "0o8", "00", "0e", "0e0", "1..", "1...2", "1.2.3", "1.2..3", "0x1p3", "0x1.8", "1e1e1", "1e1.5", ".", "..", "...", ".5.", ".5.5", "1.5.",
+		"0x7fffffffffffffff", "0x8000000000000000", "0xffffffffffffffffff", "9223372036854775807", "9223372036854775808", "99999999999999999999999999", "1e308", "1e309", "1e-400",
+		"0.00000000000000000000000000000000000000001", "1_000_000", "1_e3", "1e_3", "0b1_", "0X_F", "1é", "١٢", "1٠"}
+	tails := []string{"", "a", "_", ".", "e", " ", "(", "1", ")", "..2", ".x", "?.x", "[0]", "\"", "é"}
+	var out []string
+	for _, st := range stems {
+		for _, t := range tails {
+			n := st + t
+			out = append(out, n, "("+n+")", n+" + 1", "["+n+"]", "Ints["+n+"]", n+".."+n, "-"+n, "{a: "+n+"}", "foo("+n+", "+n+")")
+		}
+	}
+	return out
+}
+
+// c04KeywordEnum: word operators, each of their prefixes and one-letter extensions, in every operand position
+func c04KeywordEnum() []string {
+	words := []string{"not", "in", "not in", "and", "or", "matches", "contains", "startsWith", "endsWith", "nil", "true", "false", "len", "all", "map"}
+	var forms []string
+	for _, w := range words {
+		for i := 1; i <= len(w); i++ {
+			forms = append(forms, w[:i])
+		}
+		forms = append(forms, w+"x", w+"1", w+"_", w+"é", strings.ToUpper(w), w+" "+w, strings.Replace(w, " ", "", -1), strings.Replace(w, " ", "  ", -1),
+			strings.Replace(w, " ", "\t", -1), strings.Replace(w, " ", "\n", -1), strings.Replace(w, " ", " ", -1))
+	}
+	forms = append(forms, "not inx", "notin", "not i", "not  in", "not not in", "not in in", "in not", "not in not in", "!in", "not!in", "not in(", "not in[")
+	var out []string
+	seen := map[string]bool{}
+	for _, f := range forms {
+		for _, s := range []string{f, "x " + f + " y", f + " y", "x " + f, "x " + f, "x" + f + "y", "x " + f + "y", "(x)" + f + "(y)", "I " + f + " Ints", "S " + f + " \"a\"",
+			"x." + f, "x?." + f, "x." + f + "()", "x " + f + " " + f + " y", "[x " + f + "]", "{" + f + ": 1}", f + "(x)", "x " + f + " [1, 2]", "1 " + f + " 1..3"} {
+			if !seen[s] {
+				seen[s] = true
+				out = append(out, s)
+			}
+		}
+	}
+	return out
+}
+
+// c04BoundaryEnum: integer literals at the int32 / int64 boundaries (decimal and hex, negated, and sums that
+// overflow when folded) in every operand position of a small set of templates
+func c04BoundaryEnum(thorough bool) []string {
+	vals := []string{"0", "1", "-1", "2", "2147483647", "2147483648", "-2147483648", "4294967296", "4611686018427387904", "-4611686018427387904",
+		"5000000000000000000", "-5000000000000000000", "9223372036854775806", "9223372036854775807", "-9223372036854775807", "-9223372036854775808",
+		"0x7fffffffffffffff", "(9223372036854775807 + 1)", "(-9223372036854775807 - 2)", "(4611686018427387904 * 2)"}
+	if thorough {
+		vals = append(vals, "-2", "2147483649", "-2147483649", "4294967295", "-4294967296", "9007199254740993", "4611686018427387905", "-9223372036854775806",
+			"0x8000000000000000", "-0x7fffffffffffffff", "9223372036854775808", "(9223372036854775807 - -1)", "(-4611686018427387904 * 3)", "(1 - 9223372036854775807 - 9223372036854775807)", "1_000_000", "1000001")
+	}
+	templates := []string{"%s..%s", "I in %s..%s", "5 not in %s..%s", "len(%s..%s)", "all(%s..%s, {# > 0})", "map(%s..%s, {#})[0]", "%s + %s", "%s - %s", "%s * %s", "%s / %s", "%s %% %s", "%s ** %s",
+		"Ints[%s:%s]", "S[%s:%s]", "Ints[%s] + Ints[%s]", "[%s, %s][0]", "[1, 2][%s] + %s", "%s == %s", "%s < %s", "%s in [%s, 1]", "Add(%s, %s)", "(%s..3)[%s]"}
+	var out []string
+	for _, t := range templates {
+		for _, a := range vals {
+			for _, b := range vals {
+				out = append(out, fmt.Sprintf(t, a, b))
+			}
+		}
+	}
+	for _, a := range vals {
+		out = append(out, "-"+a, "- -"+a, "+"+a, a+"..", ".."+a, "Ints["+a+":]", "Ints[:"+a+"]", "I in "+a+"..I", a+" ?: 1")
+	}
+	return out
+}
